@@ -14,6 +14,8 @@
 // C01_cont.cpp: containers, grid, array, runtime_index, enum from_string, extract_from_string, io, narrow/widen.
 // C01_fs.cpp:   fcppt::filesystem on a private directory tree, options::impl::is_flag / next_arg, options::parse.
 // C01_parse.cpp: fcppt::parse::parse_string / phrase_parse_string.
+// C01_env.cpp:   locales with user-installed codecvt facets (std::codecvt_utf8, a scripted facet), throwing user callbacks.
+// C01_stream.cpp: stream consumers on scripted stream buffers, on streams in every state / exception mask, on file streams.
 #include "C01_common.hpp"
 
 #include <fcppt/cast/truncation_check.hpp>
@@ -516,5 +518,7 @@ int main(int argc, char **argv)
   c01::register_containers();
   c01::register_fs_options();
   c01::register_parse();
+  c01::register_env();
+  c01::register_streams();
   return vrt::run(argc, argv);
 }
